@@ -48,6 +48,14 @@ def xmlCharOk (n : Nat) : Bool :=
   n = 0x9 || n = 0xA || n = 0xD || (0x20 ≤ n && n ≤ 0xD7FF) || (0xE000 ≤ n && n ≤ 0xFFFD)
     || (0x10000 ≤ n && n ≤ 0x10FFFF)
 
+/-- the character a numeric reference `n` denotes: above U+10FFFF is an error; a surrogate
+    becomes U+FFFD (Go's `string(rune(n))`); the result must be an XML character -/
+def refChar (n : Nat) : Option Char :=
+  if n ≤ 0x10FFFF then
+    let m := if 0xD800 ≤ n && n ≤ 0xDFFF then 0xFFFD else n
+    if xmlCharOk m then some (Char.ofNat m) else none
+  else none
+
 def namedEnts : List (Str × Char) :=
   [("&amp;".toList, '&'), ("&lt;".toList, '<'), ("&gt;".toList, '>'),
    ("&quot;".toList, '"'), ("&apos;".toList, '\'')]
@@ -59,10 +67,10 @@ def matchRef (s : Str) : Option (Char × Str) :=
   | none =>
     match s with
     | '&' :: '#' :: 'x' :: rest => match numRef hexDigitVal 16 rest 0 false with
-        | some (n, r) => if xmlCharOk n then some (Char.ofNat n, r) else none
+        | some (n, r) => (refChar n).map (·, r)
         | none => none
     | '&' :: '#' :: rest => match numRef decDigitVal 10 rest 0 false with
-        | some (n, r) => if xmlCharOk n then some (Char.ofNat n, r) else none
+        | some (n, r) => (refChar n).map (·, r)
         | none => none
     | _ => none
 
